@@ -343,10 +343,19 @@ static void handler(char **lines, size_t n, int beh) {
       if (!r1) { r2 = hwloc_memattr_set_value(topo[s], id, tg, NULL, 0, v); err = errno; }
       ev_begin("memattr", s); out(",\"flags\":%lu,\"target\":%lu,\"register\":%d,\"set\":%d", fl, gp, r1, r2); ev_end(!r1 && !r2 ? 0 : -1, err);
     } else if (!strcmp(cmd, "cpukind")) {
-      char *cs = hwv_tok(&p); int eff = (int)hwv_tokl(&p); hwloc_bitmap_t c = parse_set(cs);
-      ret = hwloc_cpukinds_register(topo[s], c, eff, NULL, 0); err = errno;
-      ev_begin("cpukind", s); out(",\"cs\":"); out_set(c); out(",\"eff\":%d", eff); ev_end(ret, err);
+      char *cs = hwv_tok(&p); int eff = (int)hwv_tokl(&p); int inf = (int)hwv_tokl(&p); hwloc_bitmap_t c = parse_set(cs);
+      struct hwloc_info_s pair; struct hwloc_infos_s infos; char val[24];
+      snprintf(val, sizeof val, "e%d", eff); pair.name = (char *)"hwvkind"; pair.value = val;
+      infos.array = &pair; infos.count = 1; infos.allocated = 1;
+      ret = hwloc_cpukinds_register(topo[s], c, eff, inf ? &infos : NULL, 0); err = errno;
+      ev_begin("cpukind", s); out(",\"cs\":"); out_set(c); out(",\"eff\":%d,\"inf\":%d", eff, inf); ev_end(ret, err);
       hwloc_bitmap_free(c);
+    } else if (!strcmp(cmd, "cpukind_info")) {
+      /* the infos of a CPU kind are edited in place, as hwloc-annotate does: mode 0 removes all pairs, mode 1 adds one */
+      unsigned k = (unsigned)hwv_tokl(&p); int mode = (int)hwv_tokl(&p); struct hwloc_infos_s *ip = NULL; int got;
+      got = hwloc_cpukinds_get_info(topo[s], k, NULL, NULL, &ip, 0); err = errno; ret = -1;
+      if (!got && ip) { ret = mode ? hwloc_modify_infos(ip, HWLOC_MODIFY_INFOS_OP_ADD, "hwvadded", "x") : hwloc_modify_infos(ip, HWLOC_MODIFY_INFOS_OP_REMOVE, NULL, NULL); err = errno; }
+      ev_begin("cpukind_info", s); out(",\"kind\":%u,\"mode\":%d,\"got\":%d", k, mode, got); ev_end(ret, err);
     } else if (!strcmp(cmd, "dup")) {
       int d = (int)hwv_tokl(&p);
       if (d < 0 || d >= nslots || topo[d]) continue;
